@@ -318,6 +318,40 @@ func (w *World) soleEntry(fn *ssa.Function, analysed []*ssa.Function) *ssa.Funct
 	return root
 }
 
+// entriesOf: the operations through which fn is reached - fn itself when it is not a transparent helper (or has no
+// static call site); otherwise the nearest non-transparent callers, following static call sites upwards.
+func (w *World) entriesOf(fn *ssa.Function, stops ...*ssa.Function) []*ssa.Function {
+	seen := map[*ssa.Function]bool{}
+	var out []*ssa.Function
+	var up func(g *ssa.Function, depth int)
+	up = func(g *ssa.Function, depth int) {
+		for g.Parent() != nil {
+			g = g.Parent()
+		}
+		if seen[g] {
+			return
+		}
+		seen[g] = true
+		sites := w.callSites(g)
+		isStop := false
+		for _, st := range stops {
+			if st == g {
+				isStop = true
+			}
+		}
+		if isStop || depth >= 3 || !w.transparent(g) || w.dynCallable(g) || len(sites) == 0 {
+			out = append(out, g)
+			return
+		}
+		for _, s := range sites {
+			up(s.Parent(), depth+1)
+		}
+	}
+	up(fn, 0)
+	sort.Slice(out, func(i, j int) bool { return out[i].String() < out[j].String() })
+	return out
+}
+
 // failurePropagates: g is root, or g's error result at its single call site in Tree(root) ends the caller with a
 // non-nil error, and so on up to root.
 func (w *World) failurePropagates(root, g *ssa.Function) bool {
@@ -337,8 +371,29 @@ func (w *World) failurePropagates(root, g *ssa.Function) bool {
 		if g.Signature.Results().Len() > 1 {
 			ev = extractOf(cv, errorResultIndex(g))
 		}
-		if ev == nil || !w.ErrEdgeEnds(cv.Parent(), ev) {
+		if ev == nil {
 			return false
+		}
+		if !w.ErrEdgeEnds(cv.Parent(), ev) {
+			// or the caller hands the helper's error straight back: every return the call can reach returns that
+			// very value as its error
+			caller := cv.Parent()
+			idx := errorResultIndex(caller)
+			direct := idx >= 0
+			n := 0
+			reach := ReachableAvoiding(cv, nil)
+			for _, r := range liveReturns(caller) {
+				if !reach(r) {
+					continue
+				}
+				n++
+				if idx >= len(r.Results) || throughCell(strip(r.Results[idx])) != ev {
+					direct = false
+				}
+			}
+			if !direct || n == 0 {
+				return false
+			}
 		}
 		g = cv.Parent()
 	}
